@@ -1,6 +1,7 @@
 #!/usr/bin/env python3
 """Regenerates the root files of the Lean project from what is on disk:
-  lean/CnfgenModel.lean, lean/Lemmas.lean, lean/Props.lean  (import lists)
+  lean/CnfgenModel.lean                                      (import list; stale Lemmas.lean / Props.lean roots are removed:
+                                                              lemma and property modules are built module by module)
   lean/Main.lean                                             (driver: one handler per Driver/<Name>.lean)
 Files are rewritten only when their content changes (keeps lake's cache valid)."""
 import os
